@@ -44,6 +44,8 @@ FIELDS = {
     "selfref": ["a: bytes", "b: Optional[datetime.date] = None", "s: Optional[Self] = None"],
     # C is a subclass of a class with a Self field and adds a field of its own
     "selfsub": ["t: int = 0"],
+    # a nested *plain* dataclass (no mixin) that opted in to dialect support itself
+    "plainnested": ["a: bytes", "pn: Optional[PN] = None", "pl: List[PN] = field(default_factory=list)"],
     # a specialised generic mixin class nested in C (units keyed by a hash of the type arguments)
     "generic": ["g: GBox[datetime.date]", "h: Optional[GBox[bytes]] = None"],
 }
@@ -84,6 +86,10 @@ def class_source(p: FPoint):
     fields = list(FIELDS[p.fields])
     if p.nested or p.mode == "postponed":
         fields.append("n: Optional['Later'] = None")
+    if p.fields == "plainnested":
+        src += ["@dataclass", "class PN:", "    z: bytes = b''", "    w: Optional[datetime.date] = None"]
+        if cfg:
+            src += ["    class Config(BaseConfig):"] + ["        " + c for c in cfg]
     if p.fields == "generic":
         src += ["_GT = TypeVar('_GT')", "@dataclass", f"class GBox(Generic[_GT], {mixname}):", "    v: _GT"]
         if cfg:
@@ -119,6 +125,8 @@ def sample_instance(mod, p: FPoint):
         kw = dict(a=mod.H1(1), b=None, c={"k": 1})
     if p.nested or p.mode == "postponed":
         kw["n"] = mod.Later(b"z", None)
+    if p.fields == "plainnested":
+        kw = dict(a=b"ab", pn=mod.PN(b"z", datetime.date(2020, 1, 2)), pl=[mod.PN(b"y", None)])
     if p.fields == "generic":
         kw = dict(g=mod.GBox(datetime.date(2020, 1, 2)), h=mod.GBox(b"xy"))
     if p.fields == "selfsub":
@@ -479,8 +487,37 @@ def g7_task(payload):
                         first.append(f"{nm}({vname}): {type(e).__name__}: {str(e)[:120]}")
         obs.append(dict(id=f"{pid}.G7{label}/first_call", status="proved" if not first else "refuted", unit="native first calls of every entry point",
                         detail="; ".join(first)[:700], witness=({"confirmed": True, "source": src, "why": first[0]} if first else None)))
+        if p.dialect_support:
+            # the other order on a fresh family: the very first call of every entry point carries the dialect
+            hist = []
+            mod2 = None
+            try:
+                mod2, _ = build.build_module(src)
+                inst2 = sample_instance(mod2, p)
+                for (to_m, from_m) in entry_points(p):
+                    try:
+                        d1 = getattr(inst2, to_m)(dialect=mod2.CallD)
+                        want = docs.get((to_m, "dialect"))
+                        if want is not None and d1 != want:
+                            hist.append(f"{to_m}(dialect) as the very first call gives {d1!r}, after a default call it gives {want!r}")
+                        back = getattr(mod2.C, from_m)(d1, dialect=mod2.CallD)
+                        if back != inst2:
+                            hist.append(f"{from_m}(dialect) as the very first call returned {back!r}")
+                        d0 = getattr(inst2, to_m)()
+                        want0 = docs.get((to_m, "default"))
+                        if want0 is not None and d0 != want0:
+                            hist.append(f"{to_m}() after a dialect call gives {d0!r}, on a fresh family {want0!r}")
+                    except RecursionError:
+                        hist.append(f"{to_m}/{from_m}(dialect) as the very first call: RecursionError")
+                    except Exception as e:  # noqa
+                        hist.append(f"{to_m}/{from_m}(dialect) as the very first call: {type(e).__name__}: {str(e)[:120]}")
+            finally:
+                if mod2 is not None:
+                    build.drop_module(mod2)
+            obs.append(dict(id=f"{pid}.H7{label}/dialect_first", status="proved" if not hist else "refuted", unit="history: dialect call before any default call, fresh family (bounded)", bounded=True,
+                            detail="; ".join(hist)[:700], witness=({"confirmed": True, "source": src, "input": "first call of each entry point with dialect=CallD on freshly defined classes", "why": hist[0]} if hist else None)))
         recs = [r for r in rec.records if r.seq >= recs0[0].seq] if recs0 else []
-        mine = [r for r in recs if r.builder is not None and r.builder.cls in (cls, getattr(mod, "Later", None), getattr(mod, "GBox", None))]
+        mine = [r for r in recs if r.builder is not None and r.builder.cls in (cls, getattr(mod, "Later", None), getattr(mod, "GBox", None), getattr(mod, "PN", None))]
         # ---- params
         decl = {}
         probs = []
@@ -496,7 +533,7 @@ def g7_task(payload):
                     continue
                 nunits += 1
                 direction, fmt, has_coder = ident
-                d = declared_params(b.cls).get((direction, fmt))
+                d = (declared_params(b.cls) or declared_params(cls)).get((direction, fmt))  # a nested plain dataclass is compiled for its holder's entry points
                 if d is None:
                     probs.append(f"{n.name}: no mixin declares an entry point ({direction}, {fmt})")
                     continue
@@ -693,6 +730,8 @@ def lattice(tier):
                     if not ds:
                         pts.append(FPoint(mixin, mode, ds, "selfsub", False, "none"))
                     pts.append(FPoint(mixin, mode, ds, "generic", False, "strategy" if ds else "none"))
+                    if mixin in ("dict", "msgpack"):
+                        pts.append(FPoint(mixin, mode, ds, "plainnested", False, "strategy" if ds else "none"))
     seen, out = set(), []
     for p in pts:
         if p.label() not in seen:
